@@ -268,10 +268,23 @@ def normalize_case(case):
     return c
 
 
-def read_doc(text, timeout=5.0):
+def read_doc(text, timeout=5.0, chan="raw"):
+    """chan: a raw string, a file, or a gz / xz compressed file - the same content through the other line readers"""
     def go():
-        y = BigTtlTriplesYielder(raw_graph=text)
-        return [project(t) for t in y.yield_triples()]
+        if chan == "raw":
+            y = BigTtlTriplesYielder(raw_graph=text)
+            return [project(t) for t in y.yield_triples()]
+        import os
+        import gzip
+        import lzma
+        with sut.tmpdir() as d:
+            path = os.path.join(d, "doc.ttl" + {"file": "", "gz": ".gz", "xz": ".xz"}[chan])
+            data = text.encode("utf-8")
+            opener = {"file": open, "gz": gzip.open, "xz": lzma.open}[chan]
+            with opener(path, "wb") as f:
+                f.write(data)
+            y = BigTtlTriplesYielder(source_file=path, compression_mode=None if chan == "file" else chan)
+            return [project(t) for t in y.yield_triples()]
     return sut.guarded(go, timeout)
 
 
@@ -312,13 +325,16 @@ def check(case):
     nt = bool(labels & {"linebreak-in-statement", "comment", "special-literal"})
     if nt:
         labels.add("nontrivial")
-    res, crash = read_doc(doc)
+    chan = case.get("chan", "raw")
+    if chan != "raw":
+        labels.add("chan:" + chan)
+    res, crash = read_doc(doc, chan=chan)
     if crash is not None:
         if isinstance(crash, sut.Hang):
             if sut.confirm_loop(lambda: list(BigTtlTriplesYielder(raw_graph=doc).yield_triples())):
                 return violation("reader does not terminate on\n%s" % doc, labels, nt)
             return discard("slow")
-        return violation("reader raised %s on\n%s" % (crash, doc), labels, nt)
+        return violation("reader raised %s (document delivered as %s) on\n%s" % (crash, chan, doc), labels, nt)
     if sorted(res) != sorted(exp):
         missing = [t for t in exp if t not in res]
         extra = [t for t in res if t not in exp]
@@ -345,7 +361,8 @@ def check_ood(case, doc, labels):
                 return violation("reader does not terminate on out-of-dialect document\n%s" % doc, labels, True)
             return discard("slow")
         return ok(labels | {"probe-raised"}, True)
-    got, want = strip_b(res), strip_b(rl)
+    # compared as sets: the projection drops the lexical form, and rdflib merges literals that differ only in it ("72", "+72")
+    got, want = sorted(set(strip_b(res))), sorted(set(strip_b(rl)))
     if got != want:
         return violation("out-of-dialect document read silently as other triples instead of raising\n%s\n yielded %s\n standard parser %s" % (doc, got[:6], want[:6]), labels, True)
     return ok(labels | {"probe-agrees"}, True)
@@ -433,7 +450,8 @@ def cases(draw):
             triples.append([list(s), p, o])
     ints = st.lists(st.integers(0, 41), min_size=1, max_size=24)
     case = {"triples": triples, "forms": draw(ints), "seps": draw(ints), "comments": draw(ints), "group": draw(ints),
-            "base": draw(st.sampled_from([False, True, 2])), "prefix_mask": draw(st.integers(0, 255))}
+            "base": draw(st.sampled_from([False, True, 2])), "prefix_mask": draw(st.integers(0, 255)),
+            "chan": draw(st.sampled_from(["raw", "raw", "raw", "raw", "file", "gz", "xz"]))}
     if draw(st.integers(0, 3)) == 0:
         case["rebind"] = draw(ints)
     if draw(st.integers(0, 5)) == 0:
